@@ -254,32 +254,131 @@ class RuleFCFS(_Rule):
     key = staticmethod(lambda h, o: h.get("position_in_job", o))
 
 
-class _AccRule(_Rule):
-    """most_work_remaining / most_operations_remaining: proved = returns an available operation
-    (no index error in the per-job accumulation); that it maximises the documented criterion is
-    decided by the bounded run"""
-    acc = ""
-    src = ""
+def remaining_work(h, D, j, upto=None):
+    """sum of the durations of the unscheduled operations of job j (ghost prefix sums of the job's durations);
+    with `upto` = i: only of those among the first i entries of unscheduled_operations()"""
+    from .instance import cumD
+    job = D.it.job(j)
+    left = D.it.L(j) - D.kj(j)
+    if upto is None:
+        cnt = left
+    else:
+        b = D.it.cumL(j) - D.cumK(j)
+        b1 = D.it.cumL(j + 1) - D.cumK(j + 1)        # = b + left (inst-cum, R9-count-per-job)
+        cnt = z3.If(upto <= b, 0, z3.If(upto >= b1, left, upto - b))
+    return cumD(h, job, D.kj(j) + cnt) - cumD(h, job, D.kj(j))
+
+
+US_HAS = "$cache_has:unscheduled_operations"
+US_VAL = "$cache_val:unscheduled_operations"
+
+
+@register
+class RuleMWKR(_Rule):
+    """most_work_remaining_rule: returns an available operation whose job has the MOST remaining work (sum of the
+    durations of its unscheduled operations) among the jobs of the available operations"""
+    name = "most_work_remaining_rule"
+    relevant = {n: SHAPE + ["work-accumulated-so-far", "result-list", "as-many-as-not-scheduled",
+                            "each-element-sits-at-its-place", "elements-are-unscheduled-operations",
+                            "def-job-duration-prefix-sums", "def-job-duration-prefix-sums-by-operation", "R9-count-per-job", "R9-deficit-monotone",
+                            "R9-count-per-job-monotone", "R9-counts-agree", "inst-cum", "inst-cum-monotone",
+                            "entry-is-cached-afterwards", "cached-entries-kept", "result-are-operations",
+                            "result-are-ready", "non-empty-while-some-job-is-unfinished", "some-operation-available"]
+                for n in ("work-accumulated-so-far", "selected-is-best-under-the-criterion", "IndexError")}
+    relevant_strict = {
+        "loop0:step:the-operation-met-sits-at-its-place": SHAPE + [
+            "work-accumulated-so-far", "result-list", "as-many-as-not-scheduled", "each-element-sits-at-its-place",
+            "elements-are-unscheduled-operations", "R9-count-per-job", "inst-cum", "entry-is-cached-afterwards",
+            "cached-entries-kept"],
+        "loop0:step:segments-of-other-jobs-do-not-contain-this-index": SHAPE + [
+            "step-placed", "R9-deficit-monotone", "R9-count-per-job", "inst-cum"],
+        "loop0:inv-entry:segments-within-the-list": SHAPE + [
+            "start-nonneg", "entry-is-cached-afterwards", "cached-entries-kept", "result-list", "as-many-as-not-scheduled",
+            "result-is-a-cached-list-or-new"],
+        "loop0:inv-preserved:segments-within-the-list": SHAPE + ["segments-within-the-list"],
+        "selected-is-best-under-the-criterion": SHAPE + [
+            "work-accumulated-so-far", "segments-within-the-list", "result-are-operations", "result-list",
+            "R9-count-per-job", "inst-cum",
+            "entry-is-cached-afterwards", "cached-entries-kept", "cache-entry-current:available_operations"],
+        "loop0:inv-preserved:work-accumulated-so-far": SHAPE + [
+            "work-accumulated-so-far", "step-placed", "step-others", "def-job-duration-prefix-sums-by-operation",
+            "R9-count-per-job", "inst-cum", "R9-deficit-monotone", "entry-is-cached-afterwards", "cached-entries-kept"],
+    }
+
+    def requires(self, c):
+        from .instance import duration_sums_defined
+        from .instance import cumD
+        it = Disp(c.h0, c["dispatcher"]).it
+        j, p = bv("jd"), bv("pd")
+        # the same definition, flattened and triggered by the operation (the loop meets operations, not prefix sums)
+        by_op = ("def-job-duration-prefix-sums-by-operation", forall([j, p], imp(
+            z3.And(rng(j, 0, it.J), rng(p, 0, it.L(j))),
+            cumD(c.h0, it.job(j), p + 1) == cumD(c.h0, it.job(j), p) + it.dur(it.op(j, p))), patterns=[it.op(j, p)]))
+        return _Rule.requires(self, c) + duration_sums_defined(c.h0, it.I) + [by_op]
+
+    def ensures(self, c):
+        h, d, o = c.h, c["dispatcher"], c.result
+        D = Disp(h, d)
+        L = h.get(AVAIL_VAL, d)
+        r = bv("rb")
+        return _Rule.ensures(self, c) + [("selected-is-best-under-the-criterion", forall([r], imp(
+            rng(r, 0, h.len(L)),
+            remaining_work(h, D, D.it.jid(o)) >= remaining_work(h, D, D.it.jid(h.at(L, r)))), patterns=[h.at(L, r)]))]
+
+    @property
+    def ghost_after(self):
+        def step(c, st):
+            # two ghost assertions (proved, then used) that stage the preservation of the invariant: where the
+            # operation just met sits in the list, and that the other jobs' segments do not contain this index
+            h, d = st.heap, c["dispatcher"]
+            D = Disp(h, d)
+            i = c.eng.loop_stack[-1]
+            o = st.env["operation"].t
+            js, ps = D.it.jid(o), D.it.pos(o)
+            placed = z3.And(rng(js, 0, D.it.J), D.kj(js) <= ps, ps < D.it.L(js), o == D.it.op(js, ps),
+                            i == D.it.cumL(js) - D.cumK(js) + ps - D.kj(js),
+                            i < D.it.cumL(js + 1) - D.cumK(js + 1))
+            c.eng.oblige(st, "loop0:step:the-operation-met-sits-at-its-place", placed, "ghost-assert")
+            st.assume(placed, "step-placed")
+            j = bv("jo")
+            others = forall([j], imp(z3.And(rng(j, 0, D.it.J), j != js), z3.Or(
+                i + 1 <= D.it.cumL(j) - D.cumK(j), i >= D.it.cumL(j + 1) - D.cumK(j + 1))),
+                patterns=[D.kj(j)])
+            c.eng.oblige(st, "loop0:step:segments-of-other-jobs-do-not-contain-this-index", others, "ghost-assert")
+            st.assume(others, "step-others")
+
+        def start(c, st):
+            h, d = st.heap, c["dispatcher"]
+            D = Disp(h, d)
+            j = bv("jn")
+            nonneg = forall([j], imp(rng(j, 0, D.it.J + 1), z3.And(
+                D.it.cumL(j) - D.cumK(j) >= 0, D.it.cumL(j) - D.cumK(j) <= D.it.N - D.n)), patterns=[D.it.cumL(j)])
+            c.eng.oblige(st, "start:no-more-scheduled-than-there-are-before-any-job", nonneg, "ghost-assert")
+            st.assume(nonneg, "start-nonneg")
+        return {"job_remaining_work[operation.job_id] += operation.duration": step,
+                "job_remaining_work = [0] * dispatcher.instance.num_jobs": start}
 
     @property
     def loops(self):
         def inv(k):
             h, d = k.h, k["dispatcher"]
             D = Disp(h, d)
-            acc = k.v(self.acc)
-            return [("accumulator", z3.And(acc >= k.h0.alloc, acc < h.alloc, h.len(acc) == D.it.J))] \
-                + reach(h, d) + cache_ok(h, d)
+            acc = k.v("job_remaining_work")
+            U = h.get(US_VAL, d)
+            j = bv("jw")
+            return [("work-accumulated-so-far", z3.And(
+                acc >= k.h0.alloc, acc < h.alloc, h.len(acc) == D.it.J, h.get(US_HAS, d) != 0, U != acc,
+                k.n == h.len(U),
+                forall([j], imp(rng(j, 0, D.it.J), h.at(acc, j) == remaining_work(h, D, j, upto=k.i)),
+                       patterns=[h.at(acc, j), D.kj(j)]))),
+                    ("segments-within-the-list", z3.And(h.len(U) == D.it.N - D.n, forall([j], imp(
+                        rng(j, 0, D.it.J + 1), z3.And(D.it.cumL(j) - D.cumK(j) >= 0,
+                                                      D.it.cumL(j) - D.cumK(j) <= D.it.N - D.n)),
+                        patterns=[D.it.cumL(j)])))] + reach(h, d) + cache_ok(h, d) + cache_effect(k.h0, h, d)
 
         def mod(k):
-            return Frame(lists=[k.v(self.acc)])
-        return {0: LoopSpec(f"for operation in dispatcher.{self.src}()", inv, mod)}
-
-
-@register
-class RuleMWKR(_AccRule):
-    name = "most_work_remaining_rule"
-    acc = "job_remaining_work"
-    src = "unscheduled_operations"
+            return Frame(lists=[k.v("job_remaining_work")])
+        return {0: LoopSpec("for operation in dispatcher.unscheduled_operations()", inv, mod)}
 
 
 # ---------------------------------------------------------------------------
@@ -417,12 +516,33 @@ class ScoreBasedRule(_Rule):
     relevant = {n: SHAPE + ["one-score-per-job", "cached-entries-kept", "result-are-operations", "result-are-ready",
                             "non-empty-while-some-job-is-unfinished", "entry-is-cached-afterwards",
                             "some-operation-available"]
-                for n in ("selected-is-available", "selects-a-ready-operation-of-the-instance", "ValueError", "IndexError")}
+                for n in ("selected-is-available", "selects-a-ready-operation-of-the-instance", "ValueError", "IndexError",
+                          "selected-has-a-highest-score")}
 
     def setup(self, eng, st, args):
         f = fresh("score_function")
         st.assume(f != 0)
         self.globals = {"score_function": Val(CALLREF("abstract:score_function"), f)}
+
+    # ghost: the list the scoring function returned in this call (so that the post-condition can speak about it)
+    @property
+    def ghost_after(self):
+        def returned(c, st):
+            st.heap = st.heap.put("$last_scores", c["dispatcher"], st.env["scores"].t)
+        return {"scores = score_function(dispatcher)": returned}
+
+    def modifies(self, c):
+        fr = query_frame(c, c["dispatcher"])
+        fr.fields["$last_scores"] = [c["dispatcher"]]
+        return fr
+
+    def ensures(self, c):
+        h, d, o = c.h, c["dispatcher"], c.result
+        D = Disp(h, d)
+        S, A = h.get("$last_scores", d), h.get(AVAIL_VAL, d)
+        r = bv("rb")
+        return _Rule.ensures(self, c) + [("selected-has-a-highest-score", forall([r], imp(
+            rng(r, 0, h.len(A)), h.at(S, D.it.jid(o)) >= h.at(S, D.it.jid(h.at(A, r)))), patterns=[h.at(A, r)]))]
 
 
 # ---------------------------------------------------------------------------
